@@ -86,6 +86,11 @@ func (d *rawDecoder) Scan(ctx context.Context) (DecodedAmmo, error) {
 		}
 
 		data, err = d.reader.ReadString('\n')
+		if err == io.EOF && len(data) > 0 {
+			// the last line has no trailing newline: it is still a line (a truncated entry
+			// must fail on its missing body, not vanish)
+			err = nil
+		}
 		if err == io.EOF {
 			d.passNum++
 			if d.config.Passes != 0 && d.passNum >= d.config.Passes {
